@@ -134,8 +134,12 @@ func (g *docGen) strN(n int) {
 			g.b.WriteByte("\"\\/bfnrt"[g.c.Intn("esc", 8)])
 		case 2: // \uXXXX non-surrogate
 			cp := g.c.Intn("ucp", 0x10000)
-			if g.c.Intn("uctrl", 4) == 0 {
+			switch g.c.Intn("uctrl", 4) {
+			case 0:
 				cp = g.c.Intn("uctrlcp", 0x20) // control characters can only be written this way
+			case 1:
+				// the edges of the UTF-8 encoding widths and of the surrogate gap
+				cp = []int{0x7f, 0x80, 0x7ff, 0x800, 0xfff, 0x1000, 0xd7ff, 0xe000, 0xfffd, 0xffff, 0x22, 0x5c, 0x2f}[g.c.Intn("uedge", 13)]
 			}
 			if cp >= 0xD800 && cp < 0xE000 {
 				cp -= 0x800
@@ -144,6 +148,10 @@ func (g *docGen) strN(n int) {
 		case 3: // surrogate pair
 			hi := 0xD800 + g.c.Intn("hi", 0x400)
 			lo := 0xDC00 + g.c.Intn("lo", 0x400)
+			if g.c.Intn("suredge", 4) == 0 {
+				hi = []int{0xD800, 0xDBFF}[g.c.Intn("hiedge", 2)]
+				lo = []int{0xDC00, 0xDFFF}[g.c.Intn("loedge", 2)]
+			}
 			g.writeU(hi)
 			g.writeU(lo)
 		case 4: // raw multi-byte UTF-8
